@@ -12,6 +12,8 @@ import sys
 import time
 
 sys.path.insert(0, os.path.dirname(os.path.abspath(__file__)))
+import hist  # noqa: E402
+import schedeng  # noqa: E402
 import seqeng  # noqa: E402
 import vlib  # noqa: E402
 
@@ -36,6 +38,24 @@ SEQ = {
     "C13": dict(focus=["storage"], classes=["storage"], profiles=["mixed", "binary"]),
     "C20": dict(focus=["mem", "dump"], classes=["mem"], profiles=["fanout", "layers", "mixed", "long", "drain"]),
 }
+
+# concurrent properties: workload kinds for the scheduler harness and the failure classes of
+# hist.check_run that count for the property
+SCHED = {
+    "C01": dict(kinds=["point", "split"], classes=["nullvalue", "linearizability", "status"]),
+    "C04": dict(kinds=["scan", "split"], classes=["nullvalue", "linearizability", "order", "status"]),
+    "C06": dict(kinds=["nodeset", "scan"], classes=["nodeset"]),
+    "C09": dict(kinds=["split", "point", "scan", "cursor"], classes=["progress", "structure", "lockorder"], trace=True),
+    "C07": dict(kinds=["epoch"], classes=["epoch", "nullvalue", "ledger", "progress"], trace=True, runs_scale=0.2),
+    # concurrent clauses of properties whose sequential part is checked by the seq engine
+    "C10": dict(kinds=["cursor"], classes=["nullvalue", "linearizability", "order", "status"]),
+    "C08": dict(kinds=["split", "point"], classes=["structure", "ledger"]),
+}
+
+ASSUME_SCHED = [
+    "sequentially consistent interleavings only (one thread runs between two announced accesses); weak-memory reorderings are not explored",
+    "schedules are sampled (seeded random walks over the yield points), not enumerated",
+]
 
 ASSUME_SEQ = [
     "the tie between model and /repo is sampled differential correspondence (counts in coverage)",
@@ -134,7 +154,7 @@ def seq_plan(prop, tier, seed):
     return plan
 
 
-def check_seq(prop, tier, seed, replay_path=None):
+def check_seq(prop, tier, seed, replay_path=None, extra_sched=False):
     t0 = time.time()
     spec = SEQ[prop]
     lean = lean_part(prop, tier)
@@ -214,6 +234,25 @@ def check_seq(prop, tier, seed, replay_path=None):
         if rc == 0:
             violation(prop, path, found)
         rc = 1
+    if extra_sched and prop in SCHED:
+        cov2, fails2 = sched_run(prop, tier, seed)
+        extra.update(cov2)
+        for i, f in enumerate(fails2):
+            sig = "sched/%s" % f["kind"]
+            known = [k for k in kf.get("known", []) if k.get("property") == prop and k.get("signature") == sig]
+            if known:
+                if sig not in printed:
+                    print("KNOWN-FINDING: property=%s %s" % (prop, known[0].get("what", sig)))
+                    printed.add(sig)
+                continue
+            nviol += 1
+            path = vlib.write_replay(prop, seed, 100 + i, {
+                "property": prop, "kind": f["kind"], "detail": f["detail"], "workload": f.get("workload", ""),
+                "schedule": f.get("schedule", []), "pre": f.get("pre", {}),
+                "replay_cmd": "python3 tools/check.py %s --replay <this file>" % prop})
+            if rc == 0:
+                violation(prop, path, f.get("found", True))
+            rc = 1
     if not lean["ok"]:
         nviol += 1
         path = vlib.write_replay(prop, seed, 900, {"broken": "proof obligations of YakProps/%s.lean" % prop, "problems": lean["problems"],
@@ -221,9 +260,125 @@ def check_seq(prop, tier, seed, replay_path=None):
         if rc == 0:
             violation(prop, path, False)
         rc = 1
-    vlib.write_evidence(prop, tier, seed, "proof", proof_coverage(prop, lean, extra), ASSUME_SEQ, time.time() - t0, nviol)
+    vlib.write_evidence(prop, tier, seed, "proof", proof_coverage(prop, lean, extra), ASSUME_SEQ + (ASSUME_SCHED if extra_sched else []), time.time() - t0, nviol)
     if rc == 0:
         print("OK %s: %d/%d theorems; %d sequences agree with model and reference" % (prop, lean["discharged"], lean["obligations"], len(results)))
+    return rc
+
+
+def sched_run(prop, tier, seed, replay_path=None):
+    """scheduler-driven part; returns (coverage dict, list of failure dicts)"""
+    spec = SCHED[prop]
+    binary, err = vlib.build_harness("scheddrv", schedeng.SCHED_DEFINES)
+    if binary is None:
+        return {"sched_evaluations": 0}, [{"kind": "build", "detail": err, "found": False}]
+    fails = []
+    if replay_path:
+        rp = json.load(open(replay_path))
+        sp = os.path.join(vlib.CACHE, "replay_sched_%d.txt" % os.getpid())
+        pre = {bytes.fromhex(k): v for k, v in rp.get("pre", {}).items()}
+        if "schedule" in rp:
+            open(sp, "w").write(" ".join(map(str, rp["schedule"])))
+            rc, out, err2 = schedeng.run_workload(binary, rp["workload"], 1, 0, "replay:" + sp)
+        else:
+            rc, out, err2 = schedeng.run_workload(binary, rp["workload"], 1, rp.get("seed", 0), rp.get("policy", "random"))
+        for r in hist.parse(out):
+            for cls, msg in hist.check_run(r, pre, spec["classes"]):
+                fails.append({"kind": cls, "detail": msg, "found": True, "workload": rp["workload"], "schedule": r.sched, "pre": rp.get("pre", {})})
+        if rc != 0:
+            fails.append({"kind": "crash", "detail": (err2 or "")[-800:], "found": True, "workload": rp["workload"], "schedule": rp.get("schedule", []), "pre": rp.get("pre", {})})
+        return {"sched_evaluations": 1}, fails
+    nwl = 24 if tier == "quick" else 400
+    runs = max(3, int((25 if tier == "quick" else 120) * spec.get("runs_scale", 1)))
+    jobs = []
+    for kind in spec["kinds"]:
+        for i in range(nwl // len(spec["kinds"]) + 1):
+            jobs.append((kind, seed * 10000 + i))
+
+    def one(job):
+        kind, sd = job
+        text, pre, meta = schedeng.make_workload(sd, kind)
+        res = {"meta": meta, "text": text, "pre": pre, "nruns": 0, "steps": 0, "ops": 0, "fails": [], "acq": 0}
+        rc, out, err2 = schedeng.run_workload(binary, text, runs, sd * 100, "sticky" if sd % 3 == 0 else "random", trace=bool(spec.get("trace")))
+        rr = hist.parse(out)
+        res["nruns"] = len(rr)
+        for r in rr:
+            try:
+                res["steps"] += int(r.header.split()[5])
+            except (IndexError, ValueError):
+                pass
+            res["ops"] += len(r.h)
+            for cls, msg in hist.check_run(r, pre, spec["classes"]):
+                res["fails"].append((cls, msg, r.sched))
+            if spec.get("trace"):
+                nacq, cyc, leftover = hist.lock_order(r)
+                res["acq"] += nacq
+                if cyc:
+                    res["fails"].append(("lockorder", "lock acquisition order has a cycle: %s" % " -> ".join(cyc), r.sched))
+                if leftover:
+                    res["fails"].append(("lockorder", "locks still held after all operations returned: %s" % leftover, r.sched))
+        if rc != 0:
+            res["fails"].append(("crash", "scheddrv exit %d: %s" % (rc, (err2 or "")[-600:]), []))
+        return res
+
+    results = vlib.pmap(one, jobs)
+    shapes = {}
+    for r in results:
+        shapes[r["meta"]["shape"]] = shapes.get(r["meta"]["shape"], 0) + r["nruns"]
+        for cls, msg, sch in r["fails"][:1]:
+            fails.append({"kind": cls, "detail": msg, "found": True, "workload": r["text"], "schedule": sch,
+                          "pre": {k.hex(): v for k, v in r["pre"].items()}})
+    cov = {
+        "sched_evaluations": sum(r["nruns"] for r in results),
+        "sched_workloads": len(results),
+        "sched_distinct_nontrivial": len({r["text"] for r in results if r["steps"] > 0}),
+        "sched_steps": sum(r["steps"] for r in results),
+        "sched_operations": sum(r["ops"] for r in results),
+        "sched_runs_per_shape": shapes,
+        "sched_lock_acquisitions_analysed": sum(r["acq"] for r in results),
+        "sched_sample": results[0]["text"].splitlines()[:14] if results else [],
+    }
+    return cov, fails
+
+
+def check_sched(prop, tier, seed, replay_path=None):
+    t0 = time.time()
+    lean = lean_part(prop, tier)
+    cov, fails = sched_run(prop, tier, seed, replay_path)
+    kf = vlib.known_findings()
+    rc = 0
+    nviol = 0
+    printed = set()
+    for i, f in enumerate(fails):
+        sig = "sched/%s" % f["kind"]
+        known = [k for k in kf.get("known", []) if k.get("property") == prop and k.get("signature") == sig]
+        if known:
+            if sig not in printed:
+                print("KNOWN-FINDING: property=%s %s" % (prop, known[0].get("what", sig)))
+                printed.add(sig)
+            continue
+        nviol += 1
+        path = vlib.write_replay(prop, seed, 100 + i, {
+            "property": prop, "kind": f["kind"], "detail": f["detail"], "workload": f.get("workload", ""),
+            "schedule": f.get("schedule", []), "pre": f.get("pre", {}),
+            "replay_cmd": "python3 tools/check.py %s --replay <this file>" % prop})
+        if rc == 0:
+            violation(prop, path, f.get("found", True))
+        rc = 1
+    if not lean["ok"]:
+        nviol += 1
+        path = vlib.write_replay(prop, seed, 900, {"broken": "proof obligations of YakProps/%s.lean" % prop, "problems": lean["problems"],
+                                                   "searched": "%d scheduled runs, none failed" % cov.get("sched_evaluations", 0) if rc == 0 else "see other replays"})
+        if rc == 0:
+            violation(prop, path, False)
+        rc = 1
+    extra = dict(cov)
+    extra.update({"evaluations": max(cov.get("sched_evaluations", 0), 1), "distinct_nontrivial": max(cov.get("sched_distinct_nontrivial", 0), 0),
+                  "rule": "one evaluation = one schedule of a generated multi-thread workload on the real code under the deterministic scheduler, its history checked by hist.py (classes %s); distinct = distinct workloads that executed at least one scheduled step" % SCHED[prop]["classes"],
+                  "samples": [cov.get("sched_sample", [])], "traces_validated_against_impl": cov.get("sched_evaluations", 0)})
+    vlib.write_evidence(prop, tier, seed, "proof", proof_coverage(prop, lean, extra), ASSUME_SCHED, time.time() - t0, nviol)
+    if rc == 0:
+        print("OK %s: %d/%d theorems; %d scheduled runs (%d steps) without a violation" % (prop, lean["discharged"], lean["obligations"], cov.get("sched_evaluations", 0), cov.get("sched_steps", 0)))
     return rc
 
 
@@ -250,8 +405,15 @@ def main():
     seed = int(os.environ.get("VERIF_SEED", "1"))
     if a.prop in UNIT:
         sys.exit(check_unit(a.prop, a.tier, seed))
+    if a.prop in SEQ and a.prop in SCHED and not a.replay:
+        rc1 = check_seq(a.prop, a.tier, seed, None, extra_sched=True)
+        sys.exit(rc1)
+    if a.replay and a.prop in SCHED and "workload" in json.load(open(a.replay)):
+        sys.exit(check_sched(a.prop, a.tier, seed, a.replay))
     if a.prop in SEQ:
         sys.exit(check_seq(a.prop, a.tier, seed, a.replay))
+    if a.prop in SCHED:
+        sys.exit(check_sched(a.prop, a.tier, seed, a.replay))
     print("unknown property " + a.prop)
     sys.exit(2)
 
